@@ -395,6 +395,7 @@ def epsilon_stage(run, driver, n):
 
     rng = random.Random(f"c06-epsilon-{run.seed}-{n}")      # own generator: the older streams keep their cases
     model = BootstrapElectionModel({"features": ["baseline_normalized_margin"]})
+    pending = []
     for _ in range(n):
         k = rng.randint(1, 6)
         nu = rng.randint(1, 14)
@@ -416,11 +417,13 @@ def epsilon_stage(run, driver, n):
         except Exception as ex:
             run.diff("_estimate_epsilon / _estimate_delta raised " + type(ex).__name__, input=case, impl=str(ex)[:200], model="no error")
             continue
-        if driver is None:
-            continue
-        m = driver.run([{"op": "boot.epsilon", "contests": cs, "residuals": [C.rat(r) for r in rs], "k": k}])[0]
-        want = [float(C.unrat(x)) for x in m["epsilon"]] + [float(C.unrat(x)) for x in m["delta"]]
         got = [float(x) for x in np.asarray(eps, dtype=float).ravel()] + [float(x) for x in np.asarray(dl, dtype=float).ravel()]
+        pending.append((case, got, {"op": "boot.epsilon", "contests": cs, "residuals": [C.rat(r) for r in rs], "k": k}))
+    if driver is None or not pending:
+        return
+    outs = driver.run([p[2] for p in pending])
+    for (case, got, _), m in zip(pending, outs):
+        want = [float(C.unrat(x)) for x in m["epsilon"]] + [float(C.unrat(x)) for x in m["delta"]]
         if len(got) != len(want) or any(not (abs(g - w) <= 1e-9 * max(1.0, abs(w))) for g, w in zip(got, want)):
             run.diff("contest effects / unit-level rests: implementation vs model", input=case, impl=got, model=want)
         else:
@@ -433,6 +436,7 @@ def interp_stage(run, driver, n):
     if driver is None:
         return
     rng = random.Random(f"c06-interp-{run.seed}-{n}")
+    pending = []
     for _ in range(n):
         k = rng.randint(1, 7)
         xp = sorted(rng.sample(range(-64, 65), k))
@@ -447,9 +451,12 @@ def interp_stage(run, driver, n):
         run.case(case, k >= 3)
         run.count("np.interp")
         got = [float(v) for v in np.interp(np.asarray(xs), np.asarray(xp), np.asarray(fp), left, right)]
-        m = driver.run([{"op": "boot.interp", "xs": [C.rat(v) for v in xs], "xp": [C.rat(v) for v in xp], "fp": [C.rat(v) for v in fp],
-                         "left": C.rat(left), "right": C.rat(right)}])[0]
+        pending.append((case, got, {"op": "boot.interp", "xs": [C.rat(v) for v in xs], "xp": [C.rat(v) for v in xp],
+                                    "fp": [C.rat(v) for v in fp], "left": C.rat(left), "right": C.rat(right)}))
+    outs = driver.run([p[2] for p in pending])
+    for (case, got, _), m in zip(pending, outs):
         want = [float(C.unrat(v)) for v in m]
+        fp, left, right = case["fp"], case["left"], case["right"]
         lo, hi = min(fp + [left, right]), max(fp + [left, right])
         if any(not (lo - 1e-12 <= g <= hi + 1e-12) for g in got):
             run.diff("np.interp leaves the range of its values (ppf_within_fitted_range)", input=case, impl=got, model=[lo, hi])
